@@ -24,9 +24,16 @@ def tlsStep (d : TlsDrv) (w : List String) : TlsDrv :=
   | ["new", e, _] =>
       let (t, k) := d.tls.newStorage
       setEng { d with tls := t } e { key := k }
+  | ["new", e, _, _] =>                                   -- constructed on a given thread: the id counter is process-wide, so the thread does not matter
+      let (t, k) := d.tls.newStorage
+      setEng { d with tls := t } e { key := k }
   | ["del", e] =>
       (match d.engines.lookup e with
        | some en => { d with tls := d.tls.destroy 0 en.key, engines := d.engines.filter (fun p => p.1 != e) }     -- the destructor runs on the main thread
+       | none => d)
+  | ["del", e, th] =>
+      (match d.engines.lookup e with
+       | some en => { d with tls := d.tls.destroy (th.toNat?.getD 0) en.key, engines := d.engines.filter (fun p => p.1 != e) }
        | none => d)
   | op :: th :: e :: name :: rest =>
       let thn := th.toNat?.getD 0
